@@ -15,11 +15,78 @@ pub fn op_abs2gds(args: &[Sexp]) -> String {
         Err(_) => "err".into(),
     }
 }
+/// canonical S-expression of what `LefExporter` fills in: dbu, macros (name, pins with their single port's layers,
+/// obstruction layers); `extra` is appended when any OTHER field of the exported library differs from its default
+pub fn leflib_s(lib: &lef21::LefLibrary) -> Sexp {
+    use lef21::*;
+    let mut extra = false;
+    let pt = |p: &LefPoint| -> Vec<Sexp> { vec![a(p.x.to_string()), a(p.y.to_string())] };
+    let mut layer_s = |lg: &LefLayerGeometries, extra: &mut bool| -> Sexp {
+        let mut v = vec![a("layer"), of_bytes(lg.layer_name.as_bytes())];
+        let mut stripped = lg.clone();
+        stripped.layer_name = String::new();
+        stripped.geometries = vec![];
+        if stripped != LefLayerGeometries::default() { *extra = true; }
+        for g in &lg.geometries {
+            match g {
+                LefGeometry::Shape(LefShape::Rect(None, p0, p1)) => { let mut r = vec![a("rect")]; r.extend(pt(p0)); r.extend(pt(p1)); v.push(l(r)); }
+                LefGeometry::Shape(LefShape::Polygon(None, pts)) => { let mut r = vec![a("polygon")]; for p in pts { r.push(l(pt(p))); } v.push(l(r)); }
+                _ => { *extra = true; v.push(a("other")); }
+            }
+        }
+        l(v)
+    };
+    let mut macros = vec![];
+    for m in &lib.macros {
+        let mut pins = vec![a("pins")];
+        for p in &m.pins {
+            let mut pv = vec![a("pin"), of_bytes(p.name.as_bytes())];
+            if p.ports.len() != 1 { extra = true; }
+            for port in &p.ports {
+                if port.class.is_some() { extra = true; }
+                for lg in &port.layers { pv.push(layer_s(lg, &mut extra)); }
+            }
+            let mut stripped = p.clone();
+            stripped.name = String::new();
+            stripped.ports = vec![];
+            if stripped != LefPin::default() { extra = true; }
+            pins.push(l(pv));
+        }
+        let mut obs = vec![a("obs")];
+        for lg in &m.obs { obs.push(layer_s(lg, &mut extra)); }
+        let mut stripped = m.clone();
+        stripped.name = String::new();
+        stripped.pins = vec![];
+        stripped.obs = vec![];
+        if stripped != LefMacro::default() { extra = true; }
+        macros.push(l(vec![a("macro"), of_bytes(m.name.as_bytes()), l(pins), l(obs)]));
+    }
+    let dbu = lib.units.as_ref().and_then(|u| u.database_microns.as_ref()).map(|d| d.value() as i64);
+    let mut stripped = lib.clone();
+    stripped.macros = vec![];
+    if let Some(u) = stripped.units.as_mut() { u.database_microns = None; }
+    if stripped.units == Some(LefUnits::default()) { stripped.units = None; }
+    if stripped != LefLibrary::default() { extra = true; }
+    let mut v = vec![a("leflib"), dbu.map(of_int).unwrap_or(a("#f"))];
+    v.extend(macros);
+    if extra { v.push(a("extra")); }
+    Sexp::List(v)
+}
 pub fn op_abs2lef(args: &[Sexp]) -> String {
     let lib = match args.get(0).and_then(crate::props::c14::p_rlib) { Some(x) => x, None => return "bad-op".into() };
     match raw::lef::LefExporter::export(&lib) {
-        Ok(l) => format!("ok {}", of_bytes(serde_json::to_string(&l).unwrap_or_default().as_bytes())),
+        Ok(l) => format!("ok {}", leflib_s(&l)),
         Err(_) => "err".into(),
+    }
+}
+/// the same conversion with the complete serialised library appended (the repeat-and-compare oracle looks at everything)
+fn abs2lef_full(line: &str) -> String {
+    let parsed = match Sexp::parse_all(line) { Some(p) if p.len() >= 2 => p, _ => return "bad-op".into() };
+    let lib = match crate::props::c14::p_rlib(&parsed[1]) { Some(x) => x, None => return "bad-op".into() };
+    match std::panic::catch_unwind(std::panic::AssertUnwindSafe(|| raw::lef::LefExporter::export(&lib))) {
+        Ok(Ok(l)) => format!("ok {} {}", leflib_s(&l), serde_json::to_string(&l).unwrap_or_default()),
+        Ok(Err(_)) => "err".into(),
+        Err(_) => "panic".into(),
     }
 }
 pub fn op_lefrt(args: &[Sexp]) -> String {
@@ -94,10 +161,11 @@ pub fn op_purphist(args: &[Sexp]) -> String {
     format!("ok {} {}", of_bytes(pb.as_bytes()), of_bytes(gds.as_bytes()))
 }
 pub fn oracle(line: &str) -> String {
-    let first = crate::ops::run_line(line);
+    let run = |line: &str| -> String { if line.starts_with("c20.abs2lef ") { abs2lef_full(line) } else { crate::ops::run_line(line) } };
+    let first = run(line);
     let reps = if line.starts_with("c20.purphist") || line.starts_with("c20.dup") { 40 } else { 5 };
     for k in 0..reps {
-        let again = crate::ops::run_line(line);
+        let again = run(line);
         if again != first {
             let i = first.bytes().zip(again.bytes()).position(|(a, b)| a != b).unwrap_or(0);
             return format!("fail repeated conversion #{} differs at char {}: …{}… vs …{}…", k + 2, i, &first[i.saturating_sub(30)..first.len().min(i + 40)], &again[i.saturating_sub(30)..again.len().min(i + 40)]);
